@@ -12,6 +12,8 @@ import p_mapped
 import p_effect
 import p_dynamic
 import p_segmentation
+import p_cwrap
+import p_memory
 
 VERIF = os.path.dirname(os.path.dirname(os.path.abspath(__file__)))
 
@@ -314,4 +316,27 @@ PROPS['C04'] = {
     ],
     'not_decided': 'that outside_line1/2 are exactly infeasibility (needs the convex-hull invariant), the segment-count bounds: value-level',
     'explanation': 'Clause-level static claim for C04: any additional cut, or a rejection that depends on something other than the geometric test, yields a non-maximal segment for some input while every test still passes.',
+}
+
+
+PROPS['C17'] = {
+    'level': 'other', 'rules': p_memory.rules_c17,
+    'selftests': [('END-GUARD on selftest/pos/endguard.cpp', selftest_endguard)],
+    'decides': [
+        'END-GUARD over every pgm:: function and the C interface: no dereference or increment of an iterator on a path that has just established it equals end(), also across calls of member functions of the same object (a callee entered with the field at end() must re-test it first)',
+        'SENTINEL: every level built by build() and every CompressedLevel key array ends with the sentinel on all construction paths, and no data key equals the sentinel (checks G1/G2 dominate the segmentation)',
+        'CLAMP / CAP / N-CAP / KIND: the query key is clamped (no negative segment index), the position estimate is capped by the next intercept, hi is capped by n, the compressed segment index derives from a LAST_LE position',
+    ],
+    'not_decided': 'memory safety of the unchecked scans as a whole: it rests on numeric invariants (predictions within the window, intercepts <= n, top_level[j+1], ef.low[...] and loser-tree indices) that no static argument in reach bounds',
+    'explanation': 'Clause-level static claim for C17: the structural part of memory safety (end-guards, sentinels, clamps and caps); out-of-bounds accesses that depend on numeric invariants are not claimed.',
+}
+PROPS['C18'] = {
+    'level': 'other', 'rules': p_cwrap.rules_c18,
+    'decides': [
+        'WRAPPER-AGREE: PGMWrapper::search satisfies RANGE-FORM / CLAMP / CAP with E = the run-time epsilon field, which is initialised from the same constructor parameter that reaches the level-0 segmentation (from the extern "C" create function); EPSILON_RECURSIVE passed to build equals the EpsilonRecursive of the inherited routing code; the constructor establishes n, first_key, segments, levels_offsets like PGMIndex(first, last)',
+        'FORWARD: each of the 16 static and 52 dynamic extern "C" functions reaches exactly the named C++ operation on its index argument with its own parameters in order; _find writes *value (and returns true) only under it != end(); _iterator_next tests end() before any dereference and reads key/value before advancing',
+        'EXC-BOUNDARY: every _create has its new inside a try whose handler catches std::invalid_argument and returns nullptr',
+    ],
+    'not_decided': 'the behaviour of the wrapped classes themselves (C01/C02/C05/C06)',
+    'explanation': 'Clause-level static claim for C18 on c-interface/cpgm.cpp analysed as built (macro-generated functions are analysed after expansion).',
 }
